@@ -16,7 +16,7 @@ CHECKS = {
     },
     "C02": {
         "technique": "property-based testing: injective data codes decoded against the spec; polygons/centres vs reference cells; STRtree hits vs brute-force scan",
-        "text": "Generated datasets of every convention (non-square, skewed, holes before valid cells, bow-tie mesh faces, variables with grid dimensions in any position, CF-decoded or raw). For every variable and every position n, element n of the flattened variable and the value selected through selector_for_index(wind_index(n)) are both compared with the value the spec stores at the reference native index; polygons, mask and face centres at n are compared with the reference geometry of that cell; spatial-index hits are compared with a brute-force scan. Exploration over bounded sizes (<= 36 cells). Grid dimensions may carry integer dimension coordinates whose labels are not the positions, stored 2-D bounds may have a layout that must be refused, and the documented select_index route is compared as well.",
+        "text": "Generated datasets of every convention (non-square, skewed, holes before valid cells, bow-tie mesh faces, variables with grid dimensions in any position, CF-decoded or raw). For every variable and every position n, element n of the flattened variable and the value selected through selector_for_index(wind_index(n)) are both compared with the value the spec stores at the reference native index; polygons, mask and face centres at n are compared with the reference geometry of that cell; spatial-index hits are compared with a brute-force scan. Exploration over bounded sizes (<= 36 cells). Grid dimensions may carry integer dimension coordinates whose labels are not the positions, stored 2-D bounds may have a layout that must be refused, and the documented select_index route is compared as well. Datasets are also held as dask chunks or as a lazily opened netCDF file, geometry may be single precision.",
         "note": "Assumes valid datasets. For 2-D CF grids without stored bounds only hole/centre consistency is asserted for polygons.",
         "design": "5/C02",
     },
@@ -34,13 +34,13 @@ CHECKS = {
     },
     "C05": {
         "technique": "property-based testing: selected values decoded against the spec; hit/miss classification from the exact containment oracle",
-        "text": "Index lists with repeats in any order on every grid kind, custom dimension names, single-index selection; point lists mixing interior hits, boundary hits and misses under error/drop/fill through select_points and extract_dataframe with extra columns. Every value of every returned variable is compared with the spec's stored value for the requested cell in request order; variable set, geometry removal, miss reporting, row labels, fill rows and data-frame columns are all checked. Variables include per-cell time stamps (datetime64, NaT), grid dimensions may carry non-positional dimension coordinates.",
+        "text": "Index lists with repeats in any order on every grid kind, custom dimension names, single-index selection; point lists mixing interior hits, boundary hits and misses under error/drop/fill through select_points and extract_dataframe with extra columns. Every value of every returned variable is compared with the spec's stored value for the requested cell in request order; variable set, geometry removal, miss reporting, row labels, fill rows and data-frame columns are all checked. Variables include per-cell time stamps (datetime64, NaT), grid dimensions may carry non-positional dimension coordinates. A sub-check selects by edge index on meshes whose edge grid exists without an edge-node table.",
         "note": "Assumes at least one hit for drop/fill and at least one variable on the selected grid; custom dimension names do not collide with dataset dimensions.",
         "design": "5/C05",
     },
     "C06": {
         "technique": "property-based testing: exact comparison of polygon rings with reference cells computed from the spec; warnings inspected; bounds exact, geometry vs union",
-        "text": "All coordinate classes per convention (ascending/descending/non-uniform axes, bounds absent/contiguous off-midpoint/with gaps and in either row order, skewed 2-D grids with and without bounds, holes, twisted cells, node grids with masked regions, meshes 0/1-based with NaN/integer fill, transposed tables, bow-tie faces, coordinates as coordinates or plain variables; raw, CF-decoded and through netCDF). Each polygon ring must equal the reference corner sequence exactly, missing/invalid cells must be None with mask False and an InvalidPolygonWarning naming them, the array read-only, bounds exact and geometry equal to the union of the cells. After the reads every dataset variable must be bit-identical to what it was and a second convention object on the same dataset must report the same polygons.",
+        "text": "All coordinate classes per convention (ascending/descending/non-uniform axes, bounds absent/contiguous off-midpoint/with gaps and in either row order, skewed 2-D grids with and without bounds, holes, twisted cells, node grids with masked regions, meshes 0/1-based with NaN/integer fill, transposed tables, bow-tie faces, coordinates as coordinates or plain variables; raw, CF-decoded and through netCDF). Each polygon ring must equal the reference corner sequence exactly, missing/invalid cells must be None with mask False and an InvalidPolygonWarning naming them, the array read-only, bounds exact and geometry equal to the union of the cells. After the reads every dataset variable must be bit-identical to what it was and a second convention object on the same dataset must report the same polygons. Cells may overlap (1-D bounds, mesh faces): the geometry must be a valid shape equal to their union.",
         "note": "2-D CF grids without stored bounds: validity only (the statements define no construction). Bounds/geometry asserted only when no invalid cells or stray mesh nodes exist.",
         "design": "5/C06",
     },
@@ -58,37 +58,37 @@ CHECKS = {
     },
     "C09": {
         "technique": "property-based testing: convention re-detection, save/reopen round trip, polygon equality under the reference position mapping, mesh tables vs reference mesh model under reference renumbering, netCDF4 inspection of on-disk dtype / start_index / index range",
-        "text": "Same case space as C08. The clipped dataset must be detected as the input's convention, be savable through ems.to_netcdf and reopen as that convention with the same polygons; where geometry is stored explicitly every selected cell keeps exactly its polygon and no new polygon appears; for meshes every supplied connectivity table must survive, equal the reference table pushed through the reference renumbering, stay inside the new index range, and keep start_index and integer type on disk. select_variables on random subsets must keep every geometry variable and all polygons.",
+        "text": "Same case space as C08. The clipped dataset must be detected as the input's convention, be savable through ems.to_netcdf and reopen as that convention with the same polygons; where geometry is stored explicitly every selected cell keeps exactly its polygon and no new polygon appears; for meshes every supplied connectivity table must survive, equal the reference table pushed through the reference renumbering, stay inside the new index range, and keep start_index and integer type on disk. select_variables on random subsets must keep every geometry variable and all polygons. A sub-check clips meshes that have a face-edge table and a declared edge dimension but nothing stored along it.",
         "note": "Geometry equality only where stored explicitly (bounds / nodes). A CF 1-D grid without bounds cropped to a one-cell-wide window has no derivable geometry; only detection is asserted there.",
         "design": "5/C09",
     },
     "C10": {
         "technique": "property-based testing: the same abstract mesh encoded twice with independently drawn encodings, every normalised table compared with a reference mesh model; supplied tables carry a random edge numbering that no derivation reproduces",
-        "text": "Abstract meshes (3-8 node faces incl. 5- and 7-gons, interior and boundary edges, shuffled numbering, random winding) are encoded twice over the full product of index base, fill representation, integer width, transposition, supplied-table subset, declared/implied dimensions, coordinates as variables or xarray coordinates, padding column and raw/decoded/netCDF. face_node, counts, dimension names and polygons must equal the model for both; supplied edge_node / face_edge / edge_face / face_face must come back exactly as supplied; derived tables must satisfy the defining relations (edges = distinct consecutive node pairs, face's c-th edge joins nodes c and c+1, edge lists exactly its faces, adjacency symmetric = shares an edge). String start_index '0'/'1' must warn, anything else must be refused. Every subset of optional tables is drawn, also edge tables without the edge-node table (supplied tables are compared in the file's numbering, derived ones against the reported tables); boundary rows of a supplied edge-face table carry the fill in either column.",
+        "text": "Abstract meshes (3-8 node faces incl. 5- and 7-gons, interior and boundary edges, shuffled numbering, random winding) are encoded twice over the full product of index base, fill representation, integer width, transposition, supplied-table subset, declared/implied dimensions, coordinates as variables or xarray coordinates, padding column and raw/decoded/netCDF. face_node, counts, dimension names and polygons must equal the model for both; supplied edge_node / face_edge / edge_face / face_face must come back exactly as supplied; derived tables must satisfy the defining relations (edges = distinct consecutive node pairs, face's c-th edge joins nodes c and c+1, edge lists exactly its faces, adjacency symmetric = shares an edge). String start_index '0'/'1' must warn, anything else must be refused. Every subset of optional tables is drawn, also edge tables without the edge-node table (supplied tables are compared in the file's numbering, derived ones against the reported tables); boundary rows of a supplied edge-face table carry the fill in either column. A sub-check uses strips of 100-260 faces in int16 / int32 tables.",
         "note": "face_edge / edge_face supplied only together with edge_node; derived edge tables asserted only when an edge dimension exists.",
         "design": "5/C10",
     },
     "C11": {
         "technique": "property-based testing: table-driven restatement of the detection rules as oracle; generated registration orders in a fresh registry; model-based operation sequences (histories) over live datasets",
-        "text": "Datasets of every convention and 13 kinds of near-miss are detected and compared with an independent restatement of the documented rules (also repeatability, deep copies, activity on another registry); 0-4 synthetic conventions with drawn specificities (ties with each other and the built-ins, duplicates) are registered one at a time in a fresh registry with detection asked after every registration; operation sequences of up to 30 steps from {access, construct+bind, bind again, shallow/deep copy, detect} over up to 6 live datasets are run against a model, with the invariant after every step that each bound dataset still returns the identical convention object, unbound copies stay unbound, and a second bind raises. Built-in classes are also registered by hand, interleaved with synthetic ones.",
+        "text": "Datasets of every convention and 13 kinds of near-miss are detected and compared with an independent restatement of the documented rules (also repeatability, deep copies, activity on another registry); 0-4 synthetic conventions with drawn specificities (ties with each other and the built-ins, duplicates) are registered one at a time in a fresh registry with detection asked after every registration; operation sequences of up to 30 steps from {access, construct+bind, bind again, shallow/deep copy, detect} over up to 6 live datasets are run against a model, with the invariant after every step that each bound dataset still returns the identical convention object, unbound copies stay unbound, and a second bind raises. Built-in classes are also registered by hand, interleaved with synthetic ones. The UGRID marker is spelled alone or next to CF, separated by blank, comma or slash.",
         "note": "Generic ArakawaC never auto-detects (documented). Built-ins do not tie with each other on generated datasets.",
         "design": "5/C11",
     },
     "C12": {
         "technique": "property-based testing: per-element comparison with a physical-depth reference model computed from the spec",
-        "text": "Datasets of every convention with 1-2 depth coordinates on different dimensions (positive up/down, stored in either order), a generated static sea floor giving columns 0..all wet layers per (depth coordinate, grid kind), 2-4 float variables with the depth dimension in any position on any grid kind with optional time and nuisance dimensions, through operations.depth.ocean_floor and dataset.ems.ocean_floor(). Every element of every reduced variable must equal the spec's value at the wet level of greatest physical depth (NaN for all-dry columns); depth dimension and coordinates must be gone; other variables, time, geometry variables and polygons must be unchanged.",
+        "text": "Datasets of every convention with 1-2 depth coordinates on different dimensions (positive up/down, stored in either order), a generated static sea floor giving columns 0..all wet layers per (depth coordinate, grid kind), 2-4 float variables with the depth dimension in any position on any grid kind with optional time and nuisance dimensions, through operations.depth.ocean_floor and dataset.ems.ocean_floor(). Every element of every reduced variable must equal the spec's value at the wet level of greatest physical depth (NaN for all-dry columns); depth dimension and coordinates must be gone; other variables, time, geometry variables and polygons must be unchanged. Depth coordinates may lack the positive attribute (one-sided values, documented guess), names may be handed over as any iterable, data may be dask-backed or lazily read from a file.",
         "note": "Static-floor assumption as documented by ocean_floor; the order of the remaining dimensions is not asserted; accessor route only with a time coordinate.",
         "design": "5/C12",
     },
     "C13": {
         "technique": "property-based testing: invariants over physical depth (multiset preserved, requested sign and order, bounds and data follow), idempotence, input immutability via deep snapshot",
-        "text": "Depth coordinates with/without positive attribute, with/without bounds, dimension or auxiliary coordinate, coordinate or plain variable, in datasets of every convention with float/int variables whose depth dimension sits anywhere; all 9 option combinations; one call, repeated calls, and the two options in two separate calls in either order; function and accessor. After the call the attribute equals the request, the physical depths are the same multiset in the requested order, each bounds row is the transformed row of the same level and brackets it, every data value is still attached to its physical depth, unset options change nothing, a further application is identical, and the input dataset is identical to a deep snapshot taken before. Two coordinates may share one dimension.",
+        "text": "Depth coordinates with/without positive attribute, with/without bounds, dimension or auxiliary coordinate, coordinate or plain variable, in datasets of every convention with float/int variables whose depth dimension sits anywhere; all 9 option combinations; one call, repeated calls, and the two options in two separate calls in either order; function and accessor. After the call the attribute equals the request, the physical depths are the same multiset in the requested order, each bounds row is the transformed row of the same level and brackets it, every data value is still attached to its physical depth, unset options change nothing, a further application is identical, and the input dataset is identical to a deep snapshot taken before. Two coordinates may share one dimension. Depth names are handed over as list, tuple, iterator, generator, dict keys or data arrays.",
         "note": "Missing positive attribute: the documented guess (majority of values > 0 => down) is the reference, and the documented warning is required.",
         "design": "5/C13",
     },
     "C14": {
         "technique": "property-based testing with a validity-predicate oracle (many triangulations are correct): counts, own vertices, containment, area sum and union area per cell",
-        "text": "Datasets of every convention with holes, plus meshes built to contain convex faces, concave polyomino faces with exactly collinear vertices (unjittered lattice), star-shaped concave faces with 4-8 vertices at random radii, 5- and 7-gons, bow-tie faces, clockwise and anticlockwise winding and every ring rotation. For every cell: exactly n-2 triangles (n = distinct consecutive corners), every triangle vertex is a vertex of that cell, every triangle lies inside the cell, areas sum to the cell's area and the union has the cell's area (no overlap, no gap); no triangles for cells without geometry; all indexes valid; no duplicate vertex rows. Every case triangulates twice with the first result's arrays overwritten in between; sub-check sparse_large_grids covers grids of 169-624 cells with geometry only in a small window.",
+        "text": "Datasets of every convention with holes, plus meshes built to contain convex faces, concave polyomino faces with exactly collinear vertices (unjittered lattice), star-shaped concave faces with 4-8 vertices at random radii, 5- and 7-gons, bow-tie faces, clockwise and anticlockwise winding and every ring rotation. For every cell: exactly n-2 triangles (n = distinct consecutive corners), every triangle vertex is a vertex of that cell, every triangle lies inside the cell, areas sum to the cell's area and the union has the cell's area (no overlap, no gap); no triangles for cells without geometry; all indexes valid; no duplicate vertex rows. Every case triangulates twice with the first result's arrays overwritten in between; sub-check sparse_large_grids covers grids of 169-624 cells with geometry only in a small window. Further sub-checks: shared corners stored as 0.0 and -0.0, cell sides down to 1e-6.",
         "note": "Relative area tolerance 1e-9. A corner listed twice in a row counts once.",
         "design": "5/C14",
     },
@@ -100,19 +100,19 @@ CHECKS = {
     },
     "C16": {
         "technique": "property-based testing with metamorphic relations (invariance / sensitivity under single edits derived from one dataset), fresh-interpreter differential over hash seeds, known-finding matcher",
-        "text": "All variants are derived from one built dataset so attribute objects are shared: 7 kinds of non-geometry edit must leave the key unchanged, single geometry edits (one value, dtype with equal values, dtype with identical bytes, shape with identical bytes, consistent rename, attribute add/change/remove, convention class differing only in name or only in module) must change it; the same netCDF files opened in fresh interpreters with PYTHONHASHSEED 0, 1 and random must give the parent's keys; equal attribute dicts rebuilt from fresh string objects must give the same key (fails: listed known finding, matched exactly). A history clause edits a geometry value and attribute in place on one dataset object between two key computations.",
+        "text": "All variants are derived from one built dataset so attribute objects are shared: 7 kinds of non-geometry edit must leave the key unchanged, single geometry edits (one value, dtype with equal values, dtype with identical bytes, shape with identical bytes, consistent rename, attribute add/change/remove, convention class differing only in name or only in module) must change it; the same netCDF files opened in fresh interpreters with PYTHONHASHSEED 0, 1 and random must give the parent's keys; equal attribute dicts rebuilt from fresh string objects must give the same key (fails: listed known finding, matched exactly). A history clause edits a geometry value and attribute in place on one dataset object between two key computations. Attribute edits include names starting with an underscore; datasets are also CF-decoded, dask-backed or lazily opened.",
         "note": "Known finding KF-cache-key-attribute-identity (marshal of attributes depends on object identity / reference counts) is reported as KNOWN-FINDING and excluded from the search by a matcher that re-derives it; process independence is explored on this machine and Python version only.",
         "design": "5/C16",
     },
     "C17": {
         "technique": "property-based testing: reference instant computed from generated components + independent regex parser of the EMS form; exhaustive offset x spelling x period grid; netCDF round trip inspected with xarray and netCDF4",
-        "text": "format_time_units_for_ems on generated unit strings (4 periods, epochs 1700-2200 at any time of day, offsets on every quarter hour from -12:00 to +14:00 plus Z and none, 'T' or space, with or without seconds, +HH:MM / +HHMM / +HH, optional space, 4 calendars) must return the EMS form denoting the same instant (also according to cftime) - an exception is a violation; the full offsets x spellings x periods grid is enumerated. Datasets of every convention with such time units and integer or fractional steps are saved through ems.to_netcdf / to_netcdf_with_fixes and reopened: same convention, identical polygons, values and time instants, EMS-form units in the file, no new _FillValue attributes. One class re-times the decoded series by a fraction of its unit while it keeps an integer encoding, so that the writer must choose a finer unit.",
+        "text": "format_time_units_for_ems on generated unit strings (4 periods, epochs 1700-2200 at any time of day, offsets on every quarter hour from -12:00 to +14:00 plus Z and none, 'T' or space, with or without seconds, +HH:MM / +HHMM / +HH, optional space, 4 calendars) must return the EMS form denoting the same instant (also according to cftime) - an exception is a violation; the full offsets x spellings x periods grid is enumerated. Datasets of every convention with such time units and integer or fractional steps are saved through ems.to_netcdf / to_netcdf_with_fixes and reopened: same convention, identical polygons, values and time instants, EMS-form units in the file, no new _FillValue attributes. One class re-times the decoded series by a fraction of its unit while it keeps an integer encoding, so that the writer must choose a finer unit. Sources are also held undecoded as on disk (compared through the decoding that reopening applies), with a sub-check for in-memory meshes with integer tables.",
         "note": "Input offsets use two-digit hours, Z or nothing (cftime ignores one-digit-hour offsets).",
         "design": "5/C17",
     },
     "C18": {
         "technique": "property-based testing: exact rational clipping of the path against every cell (independent of GEOS) as length oracle; order and index invariants; data decoded against the spec",
-        "text": "Datasets of every convention (holes, skewed cells, concave mesh faces) with a depth coordinate x simple polylines of 2-6 vertices built from cell vertices, edge points, interiors, hole interiors and points outside the model. Per cell the segments naming it must lie in the cell and on the path, not overlap, and have total length equal to the exactly computed length of the path inside that cell (zero for untouched cells and holes); indexes and polygon must agree with R-index; start <= end, the list sorted by start distance, distance monotone in the path parameter; transect_dataset and prepare_data_array_for_transect must list exactly the segments' cells and carry the spec's values at every depth (and time). After each variable a second array with the same name, dimensions and shape is prepared on the same transect.",
+        "text": "Datasets of every convention (holes, skewed cells, concave mesh faces) with a depth coordinate x simple polylines of 2-6 vertices built from cell vertices, edge points, interiors, hole interiors and points outside the model. Per cell the segments naming it must lie in the cell and on the path, not overlap, and have total length equal to the exactly computed length of the path inside that cell (zero for untouched cells and holes); indexes and polygon must agree with R-index; start <= end, the list sorted by start distance, distance monotone in the path parameter; transect_dataset and prepare_data_array_for_transect must list exactly the segments' cells and carry the spec's values at every depth (and time). After each variable a second array with the same name, dimensions and shape is prepared on the same transect. Reported distances are compared with pyproj's geodesic solver (1e-6 relative + 1 cm); one model in four lies east of 180 degrees.",
         "note": "cfunits is stubbed; cartopy's Geodetic CRS stands in for PlateCarree as data_crs because this sandbox's cartopy 0.25 / PROJ 9.8 pair distorts PlateCarree latitudes (DESIGN.md section 9).",
         "design": "5/C18",
     },
@@ -124,7 +124,7 @@ CHECKS = {
     },
     "C20": {
         "technique": "property-based testing: independent hand-written parser of the bounds grammar as oracle incl. near-miss strings; differential comparison of CLI output files with library results; failure-path invariants; subprocess sample",
-        "text": "bounds_argument / geometry_argument on grammar-generated strings (minus, 1 / 1. / .5 / 1.5, underscores, spaces around commas, Unicode digits) and 21 kinds of near-miss must accept exactly what an independent split-and-recognise parser accepts, with the same four numbers; GeoJSON strings and files valid and invalid. clip (bounds, GeoJSON string, GeoJSON file), extract-points (hits and misses x error/drop/fill/default x custom columns and dimension) and export-geometry (explicit or guessed format) run in process on datasets of every auto-detectable convention and are compared with the files the library calls produce (xarray identical + raw units; byte equality for exports); failures must exit non-zero with a message and leave no output file; a sample runs as python -m emsarray. An explicit export format is combined with neutral, missing and contradicting extensions.",
+        "text": "bounds_argument / geometry_argument on grammar-generated strings (minus, 1 / 1. / .5 / 1.5, underscores, spaces around commas, Unicode digits) and 21 kinds of near-miss must accept exactly what an independent split-and-recognise parser accepts, with the same four numbers; GeoJSON strings and files valid and invalid. clip (bounds, GeoJSON string, GeoJSON file), extract-points (hits and misses x error/drop/fill/default x custom columns and dimension) and export-geometry (explicit or guessed format) run in process on datasets of every auto-detectable convention and are compared with the files the library calls produce (xarray identical + raw units; byte equality for exports); failures must exit non-zero with a message and leave no output file; a sample runs as python -m emsarray. An explicit export format is combined with neutral, missing and contradicting extensions. Point tables may repeat a row.",
         "note": "Whitespace before the first / after the last number is not asserted either way.",
         "design": "5/C20",
     },
